@@ -9,6 +9,19 @@ Local Open Scope string_scope.
 Section Tie.
   Variable Pay : Type.
   Variable empty_pay : Pay.
+  Variable Ent : Type.
+
+  Theorem src_bound_names_is_bound_names (c : component Ent Pay) :
+    src_get_bound_names Ent (c_default c) (src_adapter_binds (c_binds c)) = bound_names Ent Pay c.
+  Proof. reflexivity. Qed.
+
+  Theorem src_get_state_is_get_state (c : component Ent Pay) (st : store Ent) :
+    src_get_state Ent (comp_addr Ent Pay c) (c_default c) (src_adapter_binds (c_binds c)) st = get_state Ent Pay c st.
+  Proof. reflexivity. Qed.
+
+  Theorem src_set_state_is_set_state (c : component Ent Pay) (st : store Ent) (out : list (string * Ent)) :
+    src_set_state Ent (comp_addr Ent Pay c) (c_default c) (src_adapter_binds (c_binds c)) out st = set_state Ent Pay c st out.
+  Proof. reflexivity. Qed.
 
   Theorem src_regularize_is_regularize (m : maybe_events Pay) : src_regularize Pay m = regularize Pay m.
   Proof. destruct m; reflexivity. Qed.
